@@ -297,6 +297,50 @@ def run(ctx):
             bad += 1
             ctx.violation({"source": src, "expected": want, "rendered": got}, "literal text / documented escapes are not reproduced exactly", tags=[render_tag(src, got)])
     ctx.generators["documents_with_known_rendering"] = {"cases": len(docs), "mismatches": bad}
+    # (d') the same documents given as bytes (UTF-8 with a BOM; a first character whose bytes begin like the BOM) and as files in
+    # UTF-8 / ISO-8859-1 declared by a magic comment, loaded through a module directory: the text must come out as from the string
+    import codecs
+    import os
+    import shutil
+    import tempfile
+    bwork = tempfile.mkdtemp(prefix="c01b_")
+    byte_paths = {}
+    try:
+        for di, (src, want) in enumerate(docs[: (150 if tier == "quick" else 3000)]):
+            if src.startswith("#") or src.lstrip(" \t").startswith("##"):
+                continue
+            variants = [("bytes-bom", lambda: Template(codecs.BOM_UTF8 + src.encode("utf-8")), want)]
+            lead = ["\ufeff", "\uff21", "\ufffd", "\ufb01"][di % 4]
+            variants.append(("bytes-bom-lead", lambda: Template(codecs.BOM_UTF8 + (lead + "\n" + src).encode("utf-8")), lead + "\n" + want))
+            for codec in ("utf-8", "iso-8859-1"):
+                try:
+                    raw = ("## -*- coding: %s -*-\n" % codec + src).encode(codec)
+                except UnicodeEncodeError:
+                    continue
+                fn = os.path.join(bwork, "d%d_%s.html" % (di, codec.replace("-", "")))
+
+                def build(fn=fn, raw=raw):
+                    with open(fn, "wb") as f:
+                        f.write(raw)
+                    Template(filename=fn, module_directory=os.path.join(bwork, "mods"))          # first construction writes the module file
+                    return Template(filename=fn, module_directory=os.path.join(bwork, "mods"))   # the second loads it
+                variants.append(("file-%s-module-directory" % codec, build, want))
+            for pname, build, want_v in variants:
+                ctx.evaluations += 1
+                byte_paths[pname] = byte_paths.get(pname, 0) + 1
+                try:
+                    with common.time_limit(5):
+                        got = build().render_unicode(x=1, raw=2)
+                except common.HarnessTimeout:
+                    got = "timeout"
+                except Exception as e:  # noqa
+                    got = "raised %s: %s" % (type(e).__name__, str(e)[:80])
+                if got != want_v:
+                    ctx.violation({"source": src, "given_as": pname, "expected": want_v, "rendered": got},
+                                  "literal text is not reproduced exactly when the template is given as bytes / as a file with a declared encoding", tags=["c01.render.bytes." + pname])
+    finally:
+        shutil.rmtree(bwork, ignore_errors=True)
+    ctx.generators["documents_given_as_bytes_or_files"] = byte_paths
     # (e) time clause: adversarial families of growing length; the ratio per doubling must stay polynomial
     for name, f in timing_families().items():
         prev = None
